@@ -251,10 +251,10 @@ Definition pp (o : obj) : printed :=
   end.
 
 (* the object printed WITHOUT decoration (an IndexedSymbol without its index: the base itself, as it occurs in [m, E], Eq(m, E),
-   Tuple(m, 2)): still the display name *)
+   Tuple(m, 2); a Function that is not applied -- SymbolPrinter._print_UndefinedFunction): still the display name *)
 Definition pp_bare (o : obj) : printed :=
   match okind o with
-  | KIndexed => match pp_name o with Some s => PText s | None => PValue end
+  | KIndexed | KFunction => match pp_name o with Some s => PText s | None => PValue end
   | _ => pp o
   end.
 
